@@ -136,14 +136,16 @@ func extractMethodsFromNamedType(named *types.Named) []TypeMethod {
 	// Get method set for *T (includes both T and *T receivers)
 	ptrType := types.NewPointer(named)
 	methodSet := types.NewMethodSet(ptrType)
+	valueMethodSet := types.NewMethodSet(named)
 
 	for i := 0; i < methodSet.Len(); i++ {
 		selection := methodSet.At(i)
 		method := selection.Obj().(*types.Func)
 		sig := method.Type().(*types.Signature)
 
-		// Determine if receiver is pointer
-		recvIsPointer := isPointerReceiver(sig.Recv().Type())
+		// A method needs a pointer receiver exactly when it is not in the method set of T itself
+		// (the declared receiver kind is not enough for methods promoted through embedded fields)
+		recvIsPointer := valueMethodSet.Lookup(method.Pkg(), method.Name()) == nil
 
 		methods = append(methods, TypeMethod{
 			Name:              method.Name(),
@@ -154,12 +156,6 @@ func extractMethodsFromNamedType(named *types.Named) []TypeMethod {
 	}
 
 	return methods
-}
-
-// isPointerReceiver checks if receiver type is a pointer
-func isPointerReceiver(t types.Type) bool {
-	_, ok := t.(*types.Pointer)
-	return ok
 }
 
 // extractMethodTypesFromTuple converts types.Tuple to MethodType slice
